@@ -227,6 +227,20 @@ def make(p):
     return HARNESSES[p["transport"]](p)
 
 
+def _work_pairing(item, seed, tier):
+    from vt.props import c06_coap
+
+    acc = core.Acc()
+    for hist in item:
+        p = {"history": list(hist), "seed": seed}
+        v = c06_coap.case_coap_pairing(p)
+        acc.case(key=("coap_pairing", tuple(hist)), outcome=f"coap_pairing:{'ok' if not v else v[0][0]}", sample={"case": "coap_pairing", "params": p}, symbols=("coap_pairing",) + tuple(f"cp:{s_}" for s_ in hist))
+        acc.traces += 1
+        for sig, detail in v:
+            acc.violation(sig, "coap_pairing", p, detail)
+    return acc
+
+
 def case_explore(p):
     h, trace = explore.run_prefix(lambda: make(p), tuple(p.get("choices", ())))
     try:
@@ -239,6 +253,12 @@ def case_explore(p):
 
 
 CASES = {"explore": case_explore}
+try:
+    from vt.props import c06_coap as _cc
+
+    CASES["coap_pairing"] = _cc.case_coap_pairing
+except ImportError:
+    pass
 
 
 def _work(item, seed, tier):
@@ -264,6 +284,13 @@ def run(ctx):
     work += [(p, r, depth + (0 if quick else 1)) for r in explore.roots(lambda: make(p), 2)]
     ctx.bounds.update(depth=depth, transports=list(HARNESSES))
     ctx.pmap(_work, work)
+    import itertools
+
+    from vt.props import c06_coap
+
+    hists = [h for n_ in range(1, (4 if quick else 5) + 1) for h in itertools.product(c06_coap.PAIRING_SYMS, repeat=n_) if any(x in ("endpoint-change", "port-change", "same-endpoint") for x in h)]
+    ctx.pmap(_work_pairing, [hists[i : i + 30] for i in range(0, len(hists), 30)])
+    ctx.bounds.update(coap_pairing_histories=len(hists), coap_pairing_alphabet=c06_coap.PAIRING_SYMS)
     ctx.exhaustive = not ctx.acc.capped
     for s in ("req1", "req2", "req", "deliver", "replay-first", "replay", "step", "drop", "future", "corrupt", "cancel", "timer", "ev", "ev-replay", "ev-corrupt", "ev-odd", "ev-replay-last", "deliver-1.5"):
         ctx.require(ctx.acc.symbols[s] > 0, f"symbol {s} never taken")
